@@ -254,5 +254,34 @@ package patchvalidator
 //@   ensures [other] aerr == nil && action != patch.Replace && action != patch.JSONPatch && action != patch.AddPublicKeys && action != patch.RemovePublicKeys &&
 //@        action != patch.AddServiceEndpoints && action != patch.RemoveServiceEndpoints && action != patch.AddAlsoKnownAs && action != patch.RemoveAlsoKnownAs ==> err != nil
 
+
+// ---------------------------------------------------------------------------
+// C11: ietf-json-patch. A pointer is acceptable when it is empty or starts with '/', and does not
+// start with /service or /publicKey. (That such a pointer cannot address the publicKey / service
+// members for the patch library is lemma C11_pointer, posed in the solver's string theory.)
+//@ spec func pointerOK(p string) bool = (p == "" || hasPrefix(p, "/")) && !hasPrefix(p, "/service") && !hasPrefix(p, "/publicKey")
+//
+//@ func validateJSONPointer(pointer) (err)
+//@   pure
+//@   ensures [iff] (err == nil) == pointerOK(pointer)
+
+// what the validator demands of one RFC 6902 operation: a string `path` that is acceptable, and,
+// when a non-null `from` member is present, a string `from` that is acceptable as well
+//@ spec func opPointersOK(op map[string]*json.RawMessage) bool =
+//@     has(op, "path") && op["path"] != nil && jsonDecodeErr(string(deref(op["path"])), string) == nil && pointerOK(jsonDecode(string(deref(op["path"])), string)) &&
+//@     (has(op, "from") && op["from"] != nil ==> jsonDecodeErr(string(deref(op["from"])), string) == nil && pointerOK(jsonDecode(string(deref(op["from"])), string)) &&
+//@        !hasPrefix(jsonDecode(string(deref(op["path"])), string), jsonDecode(string(deref(op["from"])), string) + "/"))
+//
+//@ func validateJSONPatches(patches) (err)
+//@   pure
+//@   let ops, derr := jsonpatch.DecodePatch(patches)
+//@   ensures [decode] derr != nil ==> err != nil
+//@   ensures [pointers] err == nil ==> (forall i int :: 0 <= i && i < len(ops) ==> opPointersOK(ops[i]))
+//@   ensures [complete] derr == nil && (forall i int :: 0 <= i && i < len(ops) ==> opPointersOK(ops[i])) ==> err == nil
+//@   loop 0 invariant [seen] forall j int :: 0 <= j && j < $k ==> opPointersOK(jsonPatches[j])
+
 //@ func (v *JSONValidator) Validate(p) (err)
 //@   pure
+//@   let value, verr := p.GetValue()
+//@   ensures [iff] (err == nil) == (verr == nil && typeis(value, []interface{}) && len(value.([]interface{})) > 0 &&
+//@        json.Marshal(value.([]interface{})).1 == nil && validateJSONPatches(json.Marshal(value.([]interface{})).0) == nil)
